@@ -369,6 +369,25 @@ def rule_MP4(rep, prog, q, ex):
                 "or the queue is never re-driven", sample={"wakeups": len(wk), "release_2": len(rel)})
 
 
+def rule_WM6(rep, prog, q, ex):
+    from .C01 import PLAIN_STORE_OK
+    rid = rep.rule("C06-WM6", "the suspend count lives in dq_state: outside constructors / destructors the word is changed only by atomic read-modify-write "
+                   "operations, never by a store (a store of a value computed from an earlier load overwrites a concurrent dispatch_suspend / dispatch_resume)", floor=2)
+    n = 0
+    for fn in prog.all_functions():
+        for i in fn.all_insts():
+            if i.op == "store" and (prog.fields(i) & DQ_STATE) and (i.d["ptr"].get("sty") or "").startswith(("struct.dispatch_queue_s", "struct.dispatch_lane_s", "struct.dispatch_workloop_s", "struct.dispatch_source_s", "struct.dispatch_queue_global_s")):
+                n += 1
+                rep.saw(fn)
+                ok = fn.name in PLAIN_STORE_OK or i.origin in PLAIN_STORE_OK
+                rep.classified(rid, i.origin, ok, i.loc, fn.name, "dq_state-stored:%s" % i.origin,
+                               "%s stores to dq_state (%s) outside a constructor / destructor: a dispatch_suspend or dispatch_resume from another thread that lands "
+                               "between the load this value was computed from and the store is lost - a later balanced resume traps as over-resume, or the queue "
+                               "stays suspended for ever" % (fn.name, i.d.get("ord")), sample={"fn": fn.name, "order": i.d.get("ord")})
+    if n < 2:
+        rep.unknown(rid, "fewer than 2 stores to dq_state found (constructors vanished?) (%d)" % n)
+
+
 def run(rep, tier="quick", srcdir=None, only=None):
     prog, units = load(UNITS, tier, srcdir)
     rep.units = units
@@ -389,6 +408,12 @@ def run(rep, tier="quick", srcdir=None, only=None):
         rule_AI3(rep, prog, q, ex)
     if want("C06-MP4"):
         rule_MP4(rep, prog, q, ex)
+    if want("C06-WM6"):
+        rule_WM6(rep, prog, q, ex)
+    if want("C04-TR1"):
+        # a suspended / inactive queue admits no new reader either: the width-taking fast paths carry the same "not suspended" guard (shared with C04)
+        from . import C04
+        C04.rule_TR1(rep, prog, q, ts)
 
 
 def run_thorough(rep, srcdir=None, only=None):
